@@ -97,6 +97,16 @@ def ident_diff(I, got, exp_items, enum):
     for g, e in zip(items, exp_items):
         g = peel(g)
         is_u = g.variant == vi(enum, 'UInt')
+        if not is_u and e[0] == 'u' and enum == 'LocalSegment':
+            # a numeric local id above u32 is kept as the same digits in a string segment (prints identically): only a
+            # string for a number that fits, or different digits, is a difference
+            from models_fmt import int_to_chars
+            gc = chars_of(g.fields[0])
+            ec = int_to_chars(I, e[1])
+            if len(gc) != len(ec):
+                return True
+            conds.append(z3.Or([e[1] <= U32] + [a != b for a, b in zip(gc, ec) if not (isinstance(a, int) and isinstance(b, int) and a == b)]))
+            continue
         if is_u != (e[0] == 'u'):
             return True
         if is_u:
